@@ -62,6 +62,14 @@ def gen_att(rng, tier, seed):
     mtu_hint = rng.choice([23, 23, 24, 64, 185, 517])
     db = gattdb.gen_db(rng, max_services=4, max_chars=4, perms_pool=PERM_POOL, mtu_hint=mtu_hint)
     ops = []
+    twins = rng.random() < 0.2
+    if twins:
+        # many instances of one service: a search by UUID has more matches than fit into one response
+        db['services'][0]['primary'] = True
+        for _ in range(rng.randint(6, 14)):
+            db['services'].append({'uuid': db['services'][0]['uuid'], 'primary': True, 'includes': [], 'chars': []})
+        for _ in range(rng.randint(1, 3)):
+            ops.append(['req', rng.choice(['fixed', 'fixed', 'eatt']), 'find_by_type_value', [['abs', 1, 0], ['max', 0]], '2800', 'svc'])
     mtu_done = False
     nops = rng.randint(5, 60 if tier == 'thorough' else 40)
     for _ in range(nops):
@@ -73,7 +81,7 @@ def gen_att(rng, tier, seed):
         elif r < 0.13:
             ops.append(['req', bearer, 'find_information', _range(rng)])
         elif r < 0.19:
-            ops.append(['req', bearer, 'find_by_type_value', _range(rng), rng.choice(['2800', '2801', '2803', 'char']), rng.choice(['svc', 'val', 'junk'])])
+            ops.append(['req', bearer, 'find_by_type_value', _range(rng), rng.choice(['2800', '2801', '2803', 'char', 'cuuid', 'cuuid']), rng.choice(['svc', 'val', 'junk'])])
         elif r < 0.29:
             ops.append(['req', bearer, 'read_by_type', _range(rng), rng.choice(['2803', '2802', 'char', 'char', '2902', 'rand16', 'rand128'])])
         elif r < 0.39:
@@ -106,7 +114,7 @@ def gen_att(rng, tier, seed):
                         rng.choice([0.0, 0.01, 1.0, 10.0, 35.0])])  # 35 s: the confirmation comes after the server gave up (30 s)
     return {
         'db': db, 'ops': ops, 'server_mtu': rng.choice([23, mtu_hint, 100, 517]), 'eatt_mtu': [rng.choice([64, 100, 247, 512]), rng.choice([64, 100, 247, 512])],
-        'profile': rng.choice(PROFILE_NAMES), 'use_eatt': any(len(o) > 1 and o[1] == 'eatt' for o in ops),
+        'profile': rng.choice(PROFILE_NAMES), 'use_eatt': any(len(o) > 1 and o[1] == 'eatt' for o in ops), 'double_confirm': rng.random() < 0.2,
     }
 
 
@@ -189,6 +197,9 @@ def run_att(case):
             if b.ind_outstanding > 0:
                 b.ind_outstanding -= 1
                 b.send(bytes([0x1E]))
+                if case.get('double_confirm'):
+                    b.send(bytes([0x1E]))  # a second confirmation right behind the first: not a request either
+                    sim.probe('two_confirmations_back_to_back')
                 if confirm_late[0]:
                     sim.probe('confirmation_after_the_indication_timed_out')
 
@@ -235,7 +246,12 @@ def run_att(case):
             if name == 'find_information':
                 return struct.pack('<BHH', 0x04, H(op[3][0]), H(op[3][1]))
             if name == 'find_by_type_value':
-                t = U(op[4])[:2] if op[4] != 'char' else b'\x00\x28'
+                if op[4] == 'cuuid':
+                    # the type of a generated characteristic value (which may be protected)
+                    c16 = [c for c in gen_chars if len(bytes(c.uuid.to_pdu_bytes())) == 2]
+                    t = bytes(c16[op[3][0][-1] % len(c16)].uuid.to_pdu_bytes()) if c16 else b'\x00\x28'
+                else:
+                    t = U(op[4])[:2] if op[4] != 'char' else b'\x00\x28'
                 if op[5] == 'svc' and built.services:
                     v = bytes(built.services[0].uuid.to_pdu_bytes())
                 elif op[5] == 'val' and gen_chars:
@@ -359,8 +375,9 @@ def run_att(case):
             elif kind == 'raw':
                 opcode, n = op[2], op[3]
                 pdu = bytes([opcode]) + bytes((3 * i + 1) & 0xFF for i in range(n))
-                if opcode in DEFINED_REQUESTS or opcode in (0x52, 0xD2, 0x1E) or opcode in att.ATT_PDU.pdu_classes:
-                    continue  # well-formed instances of these are generated above; malformed layouts of defined PDUs are C17's
+                if opcode in (0x02, 0x52, 0xD2, 0x1E) or (opcode in att.ATT_PDU.pdu_classes and opcode not in DEFINED_REQUESTS):
+                    continue  # commands / confirmations / server-to-client PDUs with an arbitrary layout are C17's; 0x02 would renegotiate the MTU behind the monitor's back
+                # (a request with a defined opcode and a malformed layout is still a request: exactly one answer, see DESIGN 11.1)
                 if opcode & 0x40:
                     expect_none(b, pdu, 'undefined-command')
                 elif opcode in (0x1B, 0x1D):
